@@ -309,6 +309,8 @@ def run(ctx):
     from props import fringe
     fringe.star_runs(ctx)
     fringe.dot_newline(ctx)
+    from props import glue
+    glue.bytes_dirfd_hidden(ctx)
     return ctx.finish(RULE)
 
 
